@@ -145,6 +145,7 @@ func GetCreds() *Creds {
 		c.leaves["rsa"] = c.CA1.leaf(ServerName, srv, rs(), notBefore, notAfter, both)
 		c.leaves["expired"] = c.CA1.leaf(ServerName, srv, ec(), notBefore, expiredAt, both)
 		c.leaves["wrongname"] = c.CA1.leaf("other.test", []string{"other.test"}, ec(), notBefore, notAfter, both)
+		c.leaves["wrongname-rsa"] = c.CA1.leaf("other.test", []string{"other.test"}, rs(), notBefore, notAfter, both)
 		c.leaves["untrusted"] = c.CA2.leaf(ServerName, srv, ec(), notBefore, notAfter, both)
 		c.leaves["client-ecdsa"] = c.CA1.leaf("client", nil, ec(), notBefore, notAfter, both)
 		c.leaves["client-ed25519"] = c.CA1.leaf("client", nil, ed(), notBefore, notAfter, both)
